@@ -77,7 +77,6 @@ private:
 
     const Type* canonicalize(const Type* ty, const Scope* scope);
 
-    void canonicalizeAnonymousFields(FieldDeclarationSymbol* fldDecl);
 
     //--------------//
     // Declarations //
